@@ -50,7 +50,7 @@ def run_demo(wt, i, meta):
 
 def main():
     wtname = sys.argv[1]          # e.g. C02 or C02b (second-round worktree of the same property)
-    pid = wtname.rstrip("b")
+    pid = wtname.rstrip("bc")
     args = sys.argv[2:]
     check_ids = [pid]
     no_check = "--no-check" in args
